@@ -223,7 +223,8 @@ class Typer:
                     continue
                 t = res.target
                 private = (t.cls is None and t.srcname.startswith("_") and not t.srcname.startswith("__")) or \
-                    (t.cls is not None and t.srcname.startswith("__") and not t.srcname.endswith("__")) or t.outer is not None
+                    (t.cls is not None and t.srcname.startswith("__") and not t.srcname.endswith("__")) or t.outer is not None or \
+                    (t.cls is not None and t.cls.name.startswith("_") and not t.srcname.startswith("__"))
                 if not private:
                     continue
                 ps = list(t.posparams)
